@@ -96,3 +96,18 @@ contract(IX + '::IntIndexer.shaped_instance', ['C05'], dict(self=_int_ix(False))
          modifies=['self._shaped_inst'], inline={'ShapedIntIndexer', 'Indexer', '__init__', '_set_attrs'}, name=IX + '::IntIndexer.shaped_instance[not cached]',
          canaries=[('negative index normalised against the wrong length', ('ShapedIntIndexer(self._idx + self._src_shape[0])', 'ShapedIntIndexer(self._idx + self._src_shape[0] - 1)'), 'post'),
                    ('shape attributes not copied to the shaped instance', ('return self._shaped_inst._set_attrs(self)', 'return self._shaped_inst'), 'post')])
+
+
+# ---- ShapedIntIndexer._check_bounds: an int index is refused exactly when NumPy would refuse it for the first dimension
+contract(IX + '::ShapedIntIndexer._check_bounds', ['C05'],
+         dict(self=Obj('ShapedIntIndexer', _idx=Int(), _src_shape=TupleT(Int(1, None)), _dist_shape=TupleT(Int(1, None)), _flat_src=OneOf(True, False), _shaped_inst=None)),
+         raises_iff={'IndexError': 'self._idx >= self._dist_shape[0] or self._idx < -self._dist_shape[0]'},
+         ensures=[], modifies=[], name=IX + '::ShapedIntIndexer._check_bounds',
+         canaries=[('the most negative legal index is refused', ('self._idx < -self._dist_shape[0]', 'self._idx <= -self._dist_shape[0]'), 'exc')])
+
+# a shaped int index into a 1-d (flat) source selects exactly that position
+contract(IX + '::ShapedIntIndexer.as_array', ['C05'],
+         dict(self=Obj('ShapedIntIndexer', _idx=Int(0, None), _src_shape=TupleT(Int(1, None)), _dist_shape=None, _flat_src=True, _shaped_inst=None),
+              copy=OneOf(False, True), flat=OneOf(True, False)),
+         ensures=['len(result) == 1 and result[0] == self._idx'], modifies=[], returns=Arr(1, dtype='int'),
+         name=IX + '::ShapedIntIndexer.as_array[1-d source]')
